@@ -846,6 +846,7 @@ impl<F: Read + Write + Seek> CompoundFile<F> {
         // the root always already exists and will have been rejected above.
         debug_assert!(!names.is_empty());
         let name = names.pop().unwrap();
+        internal::path::validate_name(name)?;
         let parent_id = match self.stream_id_for_name_chain(&names) {
             Some(stream_id) => stream_id,
             None => not_found!("Parent storage doesn't exist"),
@@ -872,6 +873,9 @@ impl<F: Read + Write + Seek> CompoundFile<F> {
 
     fn create_storage_all_with_path(&mut self, path: &Path) -> io::Result<()> {
         let names = internal::path::name_chain_from_path(path)?;
+        for name in names.iter() {
+            internal::path::validate_name(name)?;
+        }
         for length in 1..(names.len() + 1) {
             let prefix_path =
                 internal::path::path_from_name_chain(&names[..length]);
@@ -1032,6 +1036,7 @@ impl<F: Read + Write + Seek> CompoundFile<F> {
         // the root always already exists and will have been rejected above.
         debug_assert!(!names.is_empty());
         let name = names.pop().unwrap();
+        internal::path::validate_name(name)?;
         let parent_id = match self.stream_id_for_name_chain(&names) {
             Some(stream_id) => stream_id,
             None => not_found!("Parent storage doesn't exist"),
